@@ -158,6 +158,62 @@ def build_items(consts, chunk=60):
     return items
 
 
+def sequence_items(rng):
+    """Constants are written one after the other by the same code: what was written for one must not colour the next.  Function
+    bodies (and global initialisers, in module order) with two constants in a row that are related - the same number at another
+    precision, the same bits at another type, the same value twice, the halves of each other - return the SECOND one."""
+    import struct
+    f32s = [0x3DCCCCCD, 0x3EAAAAAB, 0x40490FDB, 0x3F800001, 0x7F7FFFFF, 0x00000001, 0x33D6BF95, 0x4B800001, 0xBDCCCCCD, 0x15AE43FD, 0x3F000000]
+    pairs = []
+    for a in f32s:
+        d = struct.unpack("<Q", struct.pack("<d", struct.unpack("<f", struct.pack("<I", a))[0]))[0]       # the same number as an f64
+        pairs += [(("f32", a), ("f64", d)), (("f64", d), ("f32", a)), (("f32", a), ("f32", a)), (("f64", d), ("f64", d)),
+                  (("i32", a), ("f32", a)), (("f32", a), ("i32", a)), (("i64", d), ("f64", d)), (("f64", d), ("i64", d)),
+                  (("i64", d), ("i32", d & 0xFFFFFFFF)), (("i32", a), ("i64", a)), (("f32", a), ("f64", d ^ 1)), (("f64", d + 1), ("f32", a))]
+    types, funcs, exports, globals_, script = [], [], [], [], [INST]
+
+    def ty(p, r):
+        t = {"p": p, "r": r}
+        if t not in types:
+            types.append(t)
+        return types.index(t)
+    for k, ((t1, v1), (t2, v2)) in enumerate(pairs):
+        c1 = [t1 + ".const", b32(v1) if t1 in ("i32", "f32") else b64(v1)]
+        c2 = [t2 + ".const", b32(v2) if t2 in ("i32", "f32") else b64(v2)]
+        it = {"f32": "i32", "f64": "i64"}.get(t2, t2)
+        re = [[it + ".reinterpret_" + t2]] if t2 in ("f32", "f64") else []
+        funcs.append({"type": ty([], [it]), "locals": [], "body": [c1, ["drop"], c2] + re + [["end"]]})
+        exports.append({"name": "s%d" % k, "kind": "func", "idx": len(funcs) - 1})
+        script.append({"op": "call", "inst": 1, "export": "s%d" % k, "args": []})
+        globals_ += [{"t": t1, "mut": False, "init": c1}, {"t": t2, "mut": False, "init": c2}]
+        funcs.append({"type": ty([], [it]), "locals": [], "body": [["global.get", 2 * k + 1]] + re + [["end"]]})
+        exports.append({"name": "sg%d" % k, "kind": "func", "idx": len(funcs) - 1})
+        script.append({"op": "call", "inst": 1, "export": "sg%d" % k, "args": []})
+    return [{"id": "seq", "module": {"types": types, "funcs": funcs, "globals": globals_, "exports": exports}, "script": script}]
+
+
+def address_items():
+    """i32 constants that happen to be addresses of text in the data segments - text with comment delimiters, quotes, backslashes,
+    trigraphs, format directives.  A constant is a number, whatever lies at that address (also in the annotated -p output)."""
+    texts = [b"*/+1/*", b"*/", b"/* open", b"\"quoted\"", b"back\\slash\\", b"??/", b"%s%d%n", b"plain text", b"//", b"*/;return 7;/*", b"\n", b"end */ 2 /* x"]
+    data, addrs, at = [], [], 1024
+    for t in texts:
+        data.append({"mode": "active", "offset": ["i32.const", b32(at)], "bytes": list(t) + [0]})
+        addrs.append(at)
+        at += 48
+    types = [{"p": [], "r": ["i32"]}]
+    funcs, exports, script = [], [], [INST]
+    for k, a in enumerate(addrs):
+        funcs.append({"type": 0, "locals": [], "body": [["i32.const", b32(a)], ["end"]]})
+        exports.append({"name": "adr%d" % k, "kind": "func", "idx": len(funcs) - 1})
+        funcs.append({"type": 0, "locals": [], "body": [["i32.const", b32(a)], ["i32.load8_u", 0, 0], ["i32.const", b32(a + 1)], ["i32.add"], ["end"]]})
+        exports.append({"name": "use%d" % k, "kind": "func", "idx": len(funcs) - 1})
+        script += [{"op": "call", "inst": 1, "export": "adr%d" % k, "args": []}, {"op": "call", "inst": 1, "export": "use%d" % k, "args": []}]
+    m = {"types": types, "funcs": funcs, "exports": exports + [{"name": "memory", "kind": "memory", "idx": 0}], "memory": {"min": 1, "max": 1}, "data": data,
+         "globals": [{"t": "i32", "mut": False, "init": ["i32.const", b32(addrs[0])]}]}
+    return [{"id": "adr", "module": m, "script": script}]
+
+
 def offset_items(rng, n):
     """i32 constants as data / element segment offsets: observed by where the segment lands."""
     items = []
@@ -257,9 +313,11 @@ def main():
     finally:
         import shutil
         shutil.rmtree(wd, ignore_errors=True)
-    items = build_items(consts) + offset_items(rng, 8 if tier == "quick" else 100)
+    items = build_items(consts) + offset_items(rng, 8 if tier == "quick" else 100) + sequence_items(rng) + address_items()
     builds = [{"name": "gcc-O0", "cc": "gcc", "cflags": ("-O0",)}, {"name": "gcc-O2", "cc": "gcc", "cflags": ("-O2",)},
-              {"name": "clang-O0", "cc": "clang", "cflags": ("-O0",)}, {"name": "clang-O2", "cc": "clang", "cflags": ("-O2",)}]
+              {"name": "clang-O0", "cc": "clang", "cflags": ("-O0",)}, {"name": "clang-O2", "cc": "clang", "cflags": ("-O2",)},
+              # the annotated (pretty) form of the output: the same numbers
+              {"name": "gcc-O1-pretty", "cc": "gcc", "cflags": ("-O1",), "w2c2_opts": ("-m", "-p")}]
     # the translator run by a user whose locale writes the decimal point as a comma: the literals must not depend on it
     wdl = common.scratch("c07loc-")
     cenv = machine.comma_locale(wdl)
